@@ -251,7 +251,10 @@ def run_scenario(scn, validity=None, goal_fault=None, log=None, goal_ref=None):
     if goal_ref is not None:
         goal_ref[0] = goal
     start = dec(spec, prob["starts"][0])
-    pd = getattr(B.ProblemDefinition, FROM[spec["kind"]])(space, start, goal)
+    try:
+        pd = getattr(B.ProblemDefinition, FROM[spec["kind"]])(space, start, goal)
+    except BaseException as e:  # building a problem definition calls no user code in the core
+        return [{"res": "ctor_raised", "text": f"{type(e).__name__}: {e}"}], space, world, goal
     if scn["params"].get("mutate_after_pd"):
         # the problem definition snapshots the space (and a compound its components) at
         # creation: what the user does to the wrapper objects afterwards must not reach the planner
